@@ -24,18 +24,24 @@
 #include <csignal>
 #include <unistd.h>
 #include <sys/wait.h>
+#include <functional>
+#include "watchdog.h"
 
 static const uint64_t STOP = ~0ULL;
 static uint64_t item(int p, uint64_t seq) { return ((uint64_t)p << 40) | seq; }
 static long now_us() { return std::chrono::duration_cast<std::chrono::microseconds>(std::chrono::steady_clock::now().time_since_epoch()).count(); }
-static std::atomic<long> g_progress{0}; static long alarm_seen = -1; static int alarm_ticks = 0;
-// every 10 s: no element consumed since the last tick = hung; still progressing after 300 s = the machine is too loaded (inconclusive)
-static void on_alarm(int) {
-    long p = g_progress.load();
-    if (p == alarm_seen) { printf("result hung\n"); fflush(stdout); _exit(0); }
-    alarm_seen = p;
-    if (++alarm_ticks >= 30) { printf("result slow\n"); fflush(stdout); _exit(0); }
-    alarm(10);
+static std::atomic<long> g_progress{0};
+// what every worker is doing, for the verdict dump: op = 0 between operations, 1 inside send/push, 2 inside recv/pop; n = operations completed
+struct Worker { std::atomic<int> op{0}; std::atomic<long> n{0}; char role = '-'; };
+static Worker g_worker[16]; static std::function<void()> g_dump_queue;
+// hang / slow verdicts come from the shared watchdog (watchdog.h): no element consumed in 2 windows of 10 s in which the machine ran every
+// thread = hung; windows in which it did not are environment windows and do not count; no verdict after 300 s = slow (inconclusive)
+static void on_verdict(const char* result) {
+    wd::print_diag();
+    if (g_dump_queue) g_dump_queue();
+    for (int i = 0; i < 16; ++i) if (g_worker[i].role != '-') printf("watchdog worker %c%d %s after %ld operations\n", g_worker[i].role, i,
+        g_worker[i].op.load() == 0 ? "between operations" : g_worker[i].op.load() == 1 ? "inside send/push" : "inside recv/pop", g_worker[i].n.load());
+    printf("%s\n", result); fflush(stdout); _exit(0);
 }
 static void on_segv(int s) { printf("result crashed signal=%d\n", s); fflush(stdout); _exit(0); }
 
@@ -44,20 +50,29 @@ template <class Q> static void run_ring(Q* q, size_t cap, int P, int Cn, uint64_
     std::atomic<uint64_t> consumed{0}; std::atomic<size_t> maxavail{0};
     uint64_t total = (uint64_t)P * M;
     std::vector<std::thread> ts;
-    for (int c = 0; c < Cn; ++c) ts.emplace_back([&, c] {
+    std::atomic<int> exited{0};
+    g_dump_queue = [q, cap, &consumed, total] { auto b = static_cast<LockfreeRingQueueBase<uint64_t, 0>*>(q);
+        printf("watchdog queue head=%zu tail=%zu capacity=%zu consumed=%lu of %lu\n", b->head.load(), b->tail.load(), cap, (unsigned long)consumed.load(), (unsigned long)total); };
+    for (int c = 0; c < Cn; ++c) { g_worker[c].role = 'C'; ts.emplace_back([&, c] {
+        Worker& w = g_worker[c];
         while (consumed.load() < total) {
             uint64_t x;
-            if (blocking) { x = q->template recv<ThreadPause>(); if (x == STOP) break; }
-            else { if (!q->pop(x)) { if (consumed.load() >= total) break; std::this_thread::yield(); continue; } }
-            got[c].push_back(x); consumed++; g_progress++;
+            w.op = 2;
+            if (blocking) { x = q->template recv<ThreadPause>(); w.op = 0; if (x == STOP) break; }
+            else { bool ok = q->pop(x); w.op = 0; if (!ok) { if (consumed.load() >= total) break; std::this_thread::yield(); continue; } }
+            got[c].push_back(x); consumed++; g_progress++; w.n++;
             size_t a = q->read_available(); size_t m = maxavail.load(); while (a > m && a < (1ULL << 60) && !maxavail.compare_exchange_weak(m, a)) {}
         }
-    });
-    for (int p = 0; p < P; ++p) ts.emplace_back([&, p] {
-        for (uint64_t i = 0; i < M; ++i) { uint64_t x = item(p, i); if (blocking) q->template send<ThreadPause>(x); else while (!q->push(x)) std::this_thread::yield(); }
-    });
+        exited++;
+    }); }
+    for (int p = 0; p < P; ++p) { g_worker[Cn + p].role = 'P'; ts.emplace_back([&, p] {
+        Worker& w = g_worker[Cn + p];
+        for (uint64_t i = 0; i < M; ++i) { uint64_t x = item(p, i); w.op = 1; if (blocking) q->template send<ThreadPause>(x); else while (!q->push(x)) std::this_thread::yield(); w.op = 0; w.n++; }
+    }); }
     for (int i = Cn; i < Cn + P; ++i) ts[i].join();
-    if (blocking) { while (consumed.load() < total) std::this_thread::yield(); for (int c = 0; c < Cn; ++c) q->template send<ThreadPause>(STOP); }
+    // a consumer that called recv() after the last element was claimed waits for a STOP; one that saw consumed == total first has left and takes
+    // none, so STOPs are pushed (never send(): a ticket for a slot that nobody will ever free would block for ever) while a consumer is still there
+    if (blocking) { while (consumed.load() < total) std::this_thread::yield(); while (exited.load() < Cn) { if (!q->push(STOP)) std::this_thread::yield(); } }
     for (int c = 0; c < Cn; ++c) ts[c].join();
     for (int p = 0; p < P; ++p) printf("produced %d %lu\n", p, (unsigned long)M);
     for (int c = 0; c < Cn; ++c) for (auto x : got[c]) printf("got %d %lu %lu\n", c, (unsigned long)(x >> 40), (unsigned long)(x & ((1ULL << 40) - 1)));
@@ -115,7 +130,7 @@ template <class Q> static void run_chan(size_t creq, int P, int Cn, uint64_t M, 
 
 static size_t cap_of(size_t c) { size_t k = 2; while (k < c) k <<= 1; return k; }
 static int run_program(const std::vector<std::string>& lines) {
-    signal(SIGALRM, on_alarm); alarm(10); signal(SIGSEGV, on_segv); signal(SIGABRT, on_segv);
+    wd::start([]() -> long { return g_progress.load(); }, on_verdict); signal(SIGSEGV, on_segv); signal(SIGABRT, on_segv);
     set_log_output(log_output_null);
     for (auto& l : lines) {
         std::istringstream is(l); std::string w, kind; size_t c; int P, Cn; uint64_t M, last; is >> w >> kind >> c >> P >> Cn >> M >> last;
